@@ -907,7 +907,8 @@ def hostile_case(case, r, idx):
         # granted), then the probe goes to the newly granted stream
         steps += [{"do": "app", "n": attacker_n, "c": 0, "read_max": 1 << 20, "ordered": True, "echo": 10,
                    "streams": [{"dir": 0, "size": 3 * sw, "chunk": 1000, "finish": True}]},
-                  {"do": "run_until", "what": "apps", "max_us": 5000000}, {"do": "run", "us": 300000}]
+                  {"do": "run_until", "what": "apps", "max_us": 5000000}, {"do": "run", "us": 300000},
+                  {"do": "app", "n": attacker_n, "c": 0, "streams": [], "echo_off": True}]
         d["warm"] = True
         sid = 4 * msb + peerbit
         end = limit + rel
